@@ -411,7 +411,9 @@ def depEntry (rec : Nat → Nat → Prog → Prog) (sch : Schema) (c vid kidx : 
   let restrictTest : Prog :=
     if fk.any (fun a => a.2 == .restrict) then
       .stmt (.select kidx) <| .dyn fun s =>
-        if (s.tab kidx).any (fun r => rowRefs fk vid r.vals) then .fail .integrity else nullLoop
+        -- only rows referencing the victim through a `cascade=False` column restrict
+        if (s.tab kidx).any (fun r => rowRefs (fk.filter fun a => a.2 == .restrict) vid r.vals)
+        then .fail .integrity else nullLoop
     else nullLoop
   freeLinks restrictTest
 
